@@ -52,7 +52,7 @@ func corpus() [][]string {
 var tvValues = []string{"0", "1", "2", "7", "41", "1000", "18446744073709551614", "18446744073709551615"}
 
 func tvFns() []string {
-	return []string{"const 5", "const 18446744073709551615", "add 1", "add 3", "nc", "fail", "ncx 8", "failx 8", "incx 1337", "cap 3", "cap 100"}
+	return []string{"const 5", "const 18446744073709551615", "add 1", "add 3", "nc", "fail", "ncx 8", "failx 8", "incx 1337", "cap 3", "cap 100", "boom"}
 }
 
 // exhaustiveTV: every operation kind x every cache/raw situation x every single-fault position (and none),
